@@ -50,10 +50,10 @@ SortAV(q, i) ==
         c  == b.refs[2]
     IN  IF Has(q1, c) /\ IsColObj(Blk(q1, c)) THEN SortCollision(q1, c) ELSE q1
 
-\* the new child list of SortGraph: nodes (OB/FO3: nodes that have children), shapes (root: the given order if it is a
+\* the new child list of SortGraph: nodes (OB/FO3: nodes that have a non-empty child entry), shapes (root: the given order if it is a
 \* permutation of them), the remaining existing blocks once each, then the empty entries; dangling entries are dropped
 Reorder(q, kids, isRoot) ==
-    LET nodes  == SelectSeq(kids, LAMBDA k : Has(q, k) /\ IsNode(Blk(q, k)) /\ (~q.old \/ Len(Blk(q, k).refs) > 2))
+    LET nodes  == SelectSeq(kids, LAMBDA k : Has(q, k) /\ IsNode(Blk(q, k)) /\ (~q.old \/ \E j \in 3..Len(Blk(q, k).refs) : Blk(q, k).refs[j] # NPOS))
         shapes == SelectSeq(kids, LAMBDA k : Has(q, k) /\ IsShapeB(Blk(q, k)))
         sh2    == IF isRoot /\ Len(q.rso) = Len(shapes) /\ IsPermOf(shapes, q.rso) THEN q.rso ELSE shapes
         first  == nodes \o sh2
